@@ -2852,14 +2852,21 @@ func ruleLoggedMappingEqualsSet(r *Run) {
 			continue
 		}
 		// setMapping(v, key, label)
-		type setT struct{ key, label ssa.Value }
+		type setT struct {
+			key, label ssa.Value
+			call       ssa.Instruction
+		}
 		var sets []setT
+		var logCalls []ssa.Instruction
 		for _, c := range calls(f) {
 			if callee := staticCallee(c); callee != nil && callee.Name() == "setMapping" {
 				a := c.Common().Args
 				if len(a) >= 4 {
-					sets = append(sets, setT{a[len(a)-2], a[len(a)-1]})
+					sets = append(sets, setT{a[len(a)-2], a[len(a)-1], c})
 				}
+			}
+			if callee := staticCallee(c); callee != nil && callee.Name() == "LogMapping" {
+				logCalls = append(logCalls, c)
 			}
 		}
 		if len(sets) == 0 {
@@ -2930,6 +2937,37 @@ func ruleLoggedMappingEqualsSet(r *Run) {
 						same := stripConv(s.label) == stripConv(mapped) || sameRoots(s.label, mapped, f)
 						r.check(same, fmt.Sprintf("%s:logged-mapping#%d", fname(f), k), "the logged label is the label set in memory",
 							"a supervoxel is mapped to one label in memory and logged with another: the mapping is right until the next restart and wrong after it (replay follows the log)", w.pos(st.Pos()))
+						// the call that logs this literal: the LogMapping behind this Mapped store with no other
+						// Mapped store of the same variable in between
+						var logCall ssa.Instruction
+						for _, lc := range logCalls {
+							if !domInstr(st, lc) {
+								continue
+							}
+							shadowed := false
+							for _, ref := range *fa.X.Referrers() {
+								fa3, ok := ref.(*ssa.FieldAddr)
+								if !ok {
+									continue
+								}
+								if nm, _, _ := fieldName(fa3); nm != "Mapped" {
+									continue
+								}
+								for _, ref2 := range *fa3.Referrers() {
+									if st3, ok := ref2.(*ssa.Store); ok && st3 != st && domInstr(st, st3) && domInstr(st3, lc) {
+										shadowed = true
+									}
+								}
+							}
+							if !shadowed {
+								logCall = lc
+							}
+						}
+						if logCall != nil {
+							pth := findPath(f, s.call, func(x ssa.Instruction) bool { return x == logCall }, successExit, nil)
+							r.check(pth == nil, fmt.Sprintf("%s:logged-mapping#%d:on-every-success-path", fname(f), k), "every success return behind the in-memory mapping lies behind its log entry",
+								"a success return can be reached from the in-memory mapping of this supervoxel without the call that logs it: the running server answers with the mapping, the restarted one — which rebuilds the mapping from the log — does not", w.pos(s.call.Pos()), w.renderPath(pth)...)
+						}
 					}
 				}
 			}
@@ -5816,6 +5854,81 @@ func ruleInsideFastBrackets(r *Run) {
 			r.check(have[pr], "InsideFast:true-behind-"+nm+"-comparison", "the answer true lies behind a comparison of the span's "+nm+" with the block",
 				"the answer 'inside' is given without the span's "+nm+" having been compared with the block: blocks beside the span count as inside, and a write restricted to the ROI changes voxels outside it", w.pos(ret.Pos()))
 		}
+		// what the edges taken to the answer establish: span.z == z, span.y == y, span.x0 <= x, span.x1 >= x
+		le, ge := map[[2]int64]bool{}, map[[2]int64]bool{}
+		for _, b := range f.Blocks {
+			ifi, ok := b.Instrs[len(b.Instrs)-1].(*ssa.If)
+			if !ok {
+				continue
+			}
+			bo, ok := ifi.Cond.(*ssa.BinOp)
+			if !ok {
+				continue
+			}
+			kx, sx, okx := comp(bo.X)
+			ky, sy, oky := comp(bo.Y)
+			if !okx || !oky || sx == sy {
+				continue
+			}
+			op := bo.Op
+			pair := [2]int64{kx, ky}
+			if !sx { // put the span on the left
+				pair = [2]int64{ky, kx}
+				switch op {
+				case token.LSS:
+					op = token.GTR
+				case token.GTR:
+					op = token.LSS
+				case token.LEQ:
+					op = token.GEQ
+				case token.GEQ:
+					op = token.LEQ
+				}
+			}
+			var taken int = -1
+			if guardedByEdge(ifi, 0, ret) {
+				taken = 0
+			} else if guardedByEdge(ifi, 1, ret) {
+				taken = 1
+			}
+			if taken < 0 {
+				continue
+			}
+			if taken == 1 { // the condition is false on the way to the answer
+				switch op {
+				case token.LSS:
+					op = token.GEQ
+				case token.GTR:
+					op = token.LEQ
+				case token.LEQ:
+					op = token.GTR
+				case token.GEQ:
+					op = token.LSS
+				case token.EQL:
+					op = token.NEQ
+				case token.NEQ:
+					op = token.EQL
+				}
+			}
+			switch op {
+			case token.EQL:
+				le[pair], ge[pair] = true, true
+			case token.LEQ, token.LSS:
+				le[pair] = true
+			case token.GEQ, token.GTR:
+				ge[pair] = true
+			}
+		}
+		need := []struct {
+			pr     [2]int64
+			nm     string
+			le, ge bool
+		}{{[2]int64{0, 2}, "z-equal", true, true}, {[2]int64{1, 1}, "y-equal", true, true}, {[2]int64{2, 0}, "x0-not-after-the-block", true, false}, {[2]int64{3, 0}, "x1-not-before-the-block", false, true}}
+		for _, nd := range need {
+			ok := (!nd.le || le[nd.pr]) && (!nd.ge || ge[nd.pr])
+			r.check(ok, "InsideFast:true-implies-"+nd.nm, "the edges taken to the answer true establish it",
+				"the tests passed on the way to the answer 'inside' do not establish "+nd.nm+": a block in another row (or beside the span) is judged against this span's x range, and a write restricted to the ROI changes blocks outside it or skips blocks inside it", w.pos(ret.Pos()))
+		}
 	}
 	// progress: from the x1 test's other edge back to the loop head only through an advance of curSpan
 	if x1If != nil {
@@ -8218,4 +8331,352 @@ func ruleCopyImmutableCoversFields(r *Run) {
 		r.check(written[name], construct, "copied", "the field "+name+" of Properties is not copied by copyImmutable: an instance made as a copy differs from its source in that property — for the background value, every block that was never written reads differently in the copy", w.fpos(f))
 	}
 	r.check(n >= 6, "imageblk.Properties:fields", fmt.Sprintf("%d", n), "too few fields: rule needs review", w.fpos(f))
+}
+
+// ---------------------------------------------------------------------------------------------
+// R19.13 — a copy constructor covers every persisted property of its datatype
+
+func init() {
+	register(ruleDef{ID: "R19.13", Prop: "C19", Tier: "quick", Floor: 10,
+		Title: "a copy constructor covers every persisted property: for every datatype whose Data has a CopyPropertiesFrom method, each exported field of Data (the fields the gob encoder persists) is stored into by that method, by a helper it calls on the receiver, or handed to a method of the embedded value — fields listed with a reason excepted (a property left out makes the copy answer differently from its source)",
+		Fn:    ruleCopyConstructorCoversFields})
+}
+
+func ruleCopyConstructorCoversFields(r *Run) {
+	w := r.W
+	nTypes, nFields := 0, 0
+	for _, f := range w.RepoFuncs {
+		if len(f.Blocks) == 0 || f.Name() != "CopyPropertiesFrom" || len(f.Params) == 0 || isTestFunc(w, f) {
+			continue
+		}
+		pkg := relPkg(pkgPathOf(f))
+		if !strings.HasPrefix(pkg, "datatype/") {
+			continue
+		}
+		ptr, ok := f.Params[0].Type().(*types.Pointer)
+		if !ok {
+			continue
+		}
+		named, ok := ptr.Elem().(*types.Named)
+		if !ok || named.Obj().Name() != "Data" {
+			continue
+		}
+		st, ok := named.Underlying().(*types.Struct)
+		if !ok {
+			continue
+		}
+		nTypes++
+		written := map[string]bool{}
+		var collect func(g *ssa.Function, recv ssa.Value, depth int)
+		collect = func(g *ssa.Function, recv ssa.Value, depth int) {
+			var top func(v ssa.Value) string
+			top = func(v ssa.Value) string {
+				switch x := v.(type) {
+				case *ssa.FieldAddr:
+					if x.X == recv {
+						name, _, _ := fieldName(x)
+						return name
+					}
+					return top(x.X)
+				case *ssa.IndexAddr:
+					return top(x.X)
+				case *ssa.UnOp:
+					return top(x.X)
+				}
+				return ""
+			}
+			for _, b := range g.Blocks {
+				for _, in := range b.Instrs {
+					switch x := in.(type) {
+					case *ssa.Store:
+						if n := top(x.Addr); n != "" {
+							written[n] = true
+						}
+					case *ssa.MapUpdate:
+						if n := top(x.Map); n != "" {
+							written[n] = true
+						}
+					case ssa.CallInstruction:
+						args := x.Common().Args
+						if bi, ok := x.Common().Value.(*ssa.Builtin); ok {
+							if bi.Name() == "copy" && len(args) > 0 {
+								if n := top(args[0]); n != "" {
+									written[n] = true
+								}
+							}
+							continue
+						}
+						if len(args) == 0 {
+							continue
+						}
+						callee := staticCallee(x)
+						// a method of a field or of the embedded value: the field is handed on
+						if n := top(args[0]); n != "" && args[0] != recv {
+							if callee == nil || callee.Signature.Recv() != nil {
+								written[n] = true
+							}
+							continue
+						}
+						// a helper on the receiver itself
+						if args[0] == recv && callee != nil && len(callee.Blocks) > 0 && depth < 2 && callee.Signature.Recv() != nil {
+							collect(callee, callee.Params[0], depth+1)
+						}
+					}
+				}
+			}
+		}
+		collect(f, f.Params[0], 0)
+		for i := 0; i < st.NumFields(); i++ {
+			fld := st.Field(i)
+			if !fld.Exported() {
+				continue
+			}
+			if fld.Embedded() {
+				// the instance's identity (datastore.Data: name, ids, store) and embedded locks/updaters are not
+				// properties: the new instance has its own
+				ts := fld.Type().String()
+				if strings.Contains(ts, "/datastore.") || strings.HasPrefix(strings.TrimPrefix(ts, "*"), "sync.") {
+					continue
+				}
+			}
+			nFields++
+			construct := fmt.Sprintf("%s.Data.CopyPropertiesFrom:field-%s", pkg, fld.Name())
+			if reason, exc := r.exceptionFor("R19.13", construct); exc {
+				r.check(true, construct, "exception: "+reason, "", w.fpos(f))
+				continue
+			}
+			r.check(written[fld.Name()], construct, "copied or handed to the embedded value's own copy",
+				"the exported (persisted) field "+fld.Name()+" of "+pkg+".Data is not set by CopyPropertiesFrom: an instance made as a copy differs from its source in that property", w.fpos(f))
+		}
+	}
+	r.check(nTypes >= 5 && nFields >= 10, "datatypes:copy-constructors", fmt.Sprintf("%d datatypes, %d exported fields", nTypes, nFields), "too few: rule needs review", "-")
+}
+
+// ---------------------------------------------------------------------------------------------
+// R13.32 — a change of kind is reported as the stored kind leaving and the new kind arriving
+
+func init() {
+	register(ruleDef{ID: "R13.32", Prop: "C13", Tier: "quick", Floor: 2,
+		Title: "a change of kind is reported as the stored kind leaving and the new kind arriving: in the annotation package, in a block entered by the 'kinds differ' edge of a comparison of two elements' Kind, the ElementPos entries built for the subscribers carry both compared kinds — one each — (labelsz keeps per-kind counts from these entries; an entry pair with the same kind cancels and the counts stay at the old kind)",
+		Fn:    ruleKindChangeReportsBothKinds})
+}
+
+func ruleKindChangeReportsBothKinds(r *Run) {
+	w := r.W
+	n := 0
+	for _, f := range w.RepoFuncs {
+		if len(f.Blocks) == 0 || relPkg(pkgPathOf(f)) != "datatype/annotation" || isTestFunc(w, f) {
+			continue
+		}
+		isKind := func(v ssa.Value) bool {
+			name, ok := fieldSel(v)
+			return ok && name == "Kind"
+		}
+		k := 0
+		for _, b := range f.Blocks {
+			ifi, ok := b.Instrs[len(b.Instrs)-1].(*ssa.If)
+			if !ok {
+				continue
+			}
+			bo, ok := ifi.Cond.(*ssa.BinOp)
+			if !ok || (bo.Op != token.NEQ && bo.Op != token.EQL) || !isKind(bo.X) || !isKind(bo.Y) {
+				continue
+			}
+			differ := 0
+			if bo.Op == token.EQL {
+				differ = 1
+			}
+			// Kind stores into ElementPos literals in blocks entered by the 'differ' edge
+			stored := map[string]bool{}
+			cnt := 0
+			var pos token.Pos
+			for _, tb := range f.Blocks {
+				for _, in := range tb.Instrs {
+					st, ok := in.(*ssa.Store)
+					if !ok {
+						continue
+					}
+					fa, ok := st.Addr.(*ssa.FieldAddr)
+					if !ok || !strings.Contains(fa.X.Type().String(), "ElementPos") {
+						continue
+					}
+					if nm, _, _ := fieldName(fa); nm != "Kind" {
+						continue
+					}
+					if !guardedByEdge(ifi, differ, st) {
+						continue
+					}
+					stored[coordKey(st.Val)] = true
+					cnt++
+					pos = st.Pos()
+				}
+			}
+			if cnt == 0 {
+				continue
+			}
+			n++
+			k++
+			ok2 := stored[coordKey(bo.X)] && stored[coordKey(bo.Y)] && coordKey(bo.X) != coordKey(bo.Y)
+			r.check(ok2, fmt.Sprintf("%s:kind-change#%d:both-kinds-reported", fname(f), k), "the entries built behind the comparison carry both compared kinds",
+				"behind the test that the stored and the new element differ in kind, the entries sent to the subscribers do not carry both kinds (the removal and the addition name the same kind): labelsz's per-kind counts keep the old kind's values although the element set changed", w.pos(pos))
+		}
+	}
+	r.check(n >= 1, "annotation:kind-change-reports", fmt.Sprintf("%d", n), "none found: rule needs review", "-")
+}
+
+// ---------------------------------------------------------------------------------------------
+// R9.20 — every count change of calcNumLabels follows the add flag
+// R9.21 — nothing derived from a block's bytes survives a re-parse
+
+func init() {
+	register(ruleDef{ID: "R9.20", Prop: "C09", Tier: "quick", Floor: 3,
+		Title: "every count change of the label census follows its direction flag: in labels.Block.calcNumLabels each update of the delta map lies behind an edge of a test of the 'add' parameter (CalcNumLabels subtracts the previous block through the same walk; a branch that always adds counts the previous block's voxels a second time)",
+		Fn:    ruleCensusFollowsFlag})
+	register(ruleDef{ID: "R9.21", Prop: "C09", Tier: "quick", Floor: 5,
+		Title: "nothing derived from a block's bytes survives a re-parse: every field of labels.Block that some function of the package stores into is also stored into by UnmarshalBinary or the helpers it calls on the receiver (a cursor table cached by a read accessor and not reset would be applied to the next block parsed into the same variable)",
+		Fn:    ruleReparseResetsEveryField})
+}
+
+func ruleCensusFollowsFlag(r *Run) {
+	w := r.W
+	f := w.method("datatype/common/labels", "Block", "calcNumLabels")
+	if f == nil || len(f.Blocks) == 0 {
+		r.undecided("labels.Block.calcNumLabels", "anchor not found")
+		return
+	}
+	var delta, add *ssa.Parameter
+	for _, p := range f.Params {
+		if _, ok := p.Type().Underlying().(*types.Map); ok {
+			delta = p
+		}
+		if p.Type().String() == "bool" {
+			add = p
+		}
+	}
+	if delta == nil || add == nil {
+		r.undecided("labels.Block.calcNumLabels", "delta / add parameters not found")
+		return
+	}
+	var tests []*ssa.If
+	for _, b := range f.Blocks {
+		if ifi, ok := b.Instrs[len(b.Instrs)-1].(*ssa.If); ok {
+			c := ifi.Cond
+			if u, ok := c.(*ssa.UnOp); ok && u.Op == token.NOT {
+				c = u.X
+			}
+			if c == ssa.Value(add) {
+				tests = append(tests, ifi)
+			}
+		}
+	}
+	n := 0
+	for _, b := range f.Blocks {
+		for _, in := range b.Instrs {
+			mu, ok := in.(*ssa.MapUpdate)
+			if !ok || mu.Map != ssa.Value(delta) {
+				continue
+			}
+			n++
+			ok2 := false
+			for _, t := range tests {
+				if guardedByEdge(t, 0, mu) || guardedByEdge(t, 1, mu) {
+					ok2 = true
+				}
+			}
+			r.check(ok2, fmt.Sprintf("calcNumLabels:delta-update#%d:behind-the-add-test", n), "the update lies behind an edge of the add test",
+				"a count in the delta map is changed without the add flag having been tested on the way: when the walk is used to subtract the previous block's voxels this branch adds them instead, and the per-label voxel counts drift upwards with every rewrite", w.pos(mu.Pos()))
+		}
+	}
+	r.check(n >= 3, "calcNumLabels:delta-updates", fmt.Sprintf("%d", n), "too few updates found: rule needs review", w.fpos(f))
+}
+
+func ruleReparseResetsEveryField(r *Run) {
+	w := r.W
+	parse := w.method("datatype/common/labels", "Block", "UnmarshalBinary")
+	if parse == nil || len(parse.Blocks) == 0 {
+		r.undecided("labels.Block.UnmarshalBinary", "anchor not found")
+		return
+	}
+	isBlockPtr := func(t types.Type) bool {
+		p, ok := t.(*types.Pointer)
+		if !ok {
+			return false
+		}
+		nm, ok := p.Elem().(*types.Named)
+		return ok && nm.Obj().Name() == "Block" && nm.Obj().Pkg() != nil && strings.HasSuffix(nm.Obj().Pkg().Path(), "datatype/common/labels")
+	}
+	fieldsStored := func(g *ssa.Function, only ssa.Value) map[string]string {
+		out := map[string]string{}
+		for _, b := range g.Blocks {
+			for _, in := range b.Instrs {
+				st, ok := in.(*ssa.Store)
+				if !ok {
+					continue
+				}
+				// the field of a Block the store lands in (directly, or in an element / sub-field of it)
+				var fa *ssa.FieldAddr
+				a := st.Addr
+				for i := 0; i < 6 && a != nil; i++ {
+					switch x := a.(type) {
+					case *ssa.FieldAddr:
+						if isBlockPtr(x.X.Type()) {
+							fa = x
+							a = nil
+						} else {
+							a = x.X
+						}
+					case *ssa.IndexAddr:
+						a = x.X
+					default:
+						a = nil
+					}
+				}
+				if fa == nil {
+					continue
+				}
+				if only != nil && fa.X != only {
+					continue
+				}
+				if nm, _, _ := fieldName(fa); nm != "" {
+					out[nm] = w.pos(st.Pos())
+				}
+			}
+		}
+		return out
+	}
+	reset := map[string]bool{}
+	var visit func(g *ssa.Function, recv ssa.Value, depth int)
+	visit = func(g *ssa.Function, recv ssa.Value, depth int) {
+		for nm := range fieldsStored(g, recv) {
+			reset[nm] = true
+		}
+		if depth >= 2 {
+			return
+		}
+		for _, c := range calls(g) {
+			callee := staticCallee(c)
+			if callee == nil || len(callee.Blocks) == 0 || len(c.Common().Args) == 0 || c.Common().Args[0] != recv || len(callee.Params) == 0 {
+				continue
+			}
+			visit(callee, callee.Params[0], depth+1)
+		}
+	}
+	visit(parse, parse.Params[0], 0)
+	n := 0
+	seen := map[string]bool{}
+	for _, g := range w.RepoFuncs {
+		if len(g.Blocks) == 0 || relPkg(pkgPathOf(g)) != "datatype/common/labels" || isTestFunc(w, g) {
+			continue
+		}
+		for nm, pos := range fieldsStored(g, nil) {
+			if seen[nm] {
+				continue
+			}
+			seen[nm] = true
+			n++
+			r.check(reset[nm], "labels.Block:field-"+nm+":reset-by-the-parser", "UnmarshalBinary (or a helper it calls on the receiver) stores into the field",
+				"the field "+nm+" of Block is written by "+fname(g)+" but not by UnmarshalBinary or its helpers: what was derived from the previous bytes stays in place when another block is parsed into the same variable, and the accessors then read the new block through the old block's table", pos)
+		}
+	}
+	r.check(n >= 5, "labels.Block:fields-written", fmt.Sprintf("%d", n), "too few fields: rule needs review", "-")
 }
